@@ -4,13 +4,17 @@ import Cfdm.Model.Select
 Line protocol of C18 (strings are hex of their UTF-8 bytes; `-` absent, `.` empty list).
 
   C18.sel cs=<rec;rec;…> fa=<axes> prog=<step+step+…>      → keys=[k1,k2,…]   (sorted)
-  C18.acc cs=… fa=… acc=<name> ids=<q,q> flts=[flt;flt] def=none|val|exc → key=<k> | default | raised:ValueError
-  C18.dax cs=… fa=… ids=<q,q> def=all|none|val|exc         → keys=[…] | key=<k> | default | raised:ValueError
+  C18.acc cs=… fa=… acc=<name> ids=<q,q> flts=[flt;flt] def=all|none|val|exc → keys=[…] | key=<k> | default | raised:ValueError
+  C18.dax cs=… fa=… ids=<q,q> flts=[flt;flt] def=all|none|val|exc   → keys=[…] | key=<k> | default | raised:ValueError
+  C18.cm  cs=… fa=… ids=<q,q> flts=[flt;flt] def=all|none|val|exc   → (Field.cell_methods / cell_method) same outputs
 
-  rec  = key|type|pre|body|post|props|axes|size|measure|method|ncvar|ncdim
-  q    = s:<hex> | i:<int> | p:<alt>/<alt>…   alt = <hex> (search) | ^<hex> (prefix)
+  C18.dak cs=… fa=… ids=<q,q> flts=[flt;flt] def=none|val|exc      → (domain_axis_key) key=<k> | default | raised:ValueError
+
+  rec  = key|type|pre|body|post|props|axes|size|measure|method|ncvar|ncdim|cmaxes|cell|connectivity
+  props = <hexname>:<pv>,…   pv = s<hex> | n<dtype>/<0|1 scalar>/<int_int_…>
+  q    = s:<hex> | i:<int> | n:<dtype>/<0|1>/<int_int_…> | p:<alt>/<alt>…   alt = <hex> (search) | ^<hex> (prefix)
   flt  = id~q,… | ty~name,… | key~q,… | pr~and|or~<hexname>:<q|->,… | ax~and|or|exact|subset~q,…
-       | nx~n,… | sz~n,… | ms~q,… | mt~q,… | nv~q,… | nd~q,… | da
+       | nx~n,… | sz~n,… | ms~q,… | mt~q,… | nv~q,… | nd~q,… | cl~q,… | cn~q,… | da
   step = F0[flt;…] | F1[flt;…] (filter(**kw), todict 0/1) | M0[flt] | M1[flt] (filter_by_x(...))
        | I_ | I<n> (inverse_filter) | U_ | U<n> (unfilter)
 -/
@@ -66,13 +70,27 @@ def parseOptStr (s : String) : Option (Option String) :=
 def parseNc (s : String) : Option (Bool × Option String) :=
   if s == "!" then some (false, none) else (parseOptStr s).map fun v => (true, v)
 
-def parseProp (s : String) : Option (String × String) := do
+/-- `<dtype>/<0|1>/<int_int_…>` -/
+def parseNum (s : String) : Option (String × Bool × List Int) :=
+  match s.splitOn "/" with
+  | [dt, sc, vs] => do
+    let sc ← if sc == "1" then some true else if sc == "0" then some false else none
+    let vs ← if vs.isEmpty then some [] else (vs.splitOn "_").mapM parseInt?
+    some (dt, sc, vs)
+  | _ => none
+
+def parsePV (s : String) : Option PV :=
+  if s.startsWith "s" then (unhex (s.drop 1).toString).map PV.str
+  else if s.startsWith "n" then (parseNum (s.drop 1).toString).map fun r => PV.num r.1 r.2.1 r.2.2
+  else none
+
+def parseProp (s : String) : Option (String × PV) := do
   let (a, b) ← split1 s ":"
-  some (← unhex a, ← unhex b)
+  some (← unhex a, ← parsePV b)
 
 def parseRec (s : String) : Option Construct :=
   match s.splitOn "|" with
-  | [key, ty, pre, body, post, props, axes, size, measure, method, ncvar, ncdim] => do
+  | [key, ty, pre, body, post, props, axes, size, measure, method, ncvar, ncdim, cmaxes, cell, conn] => do
     let ty ← parseCType ty
     let pre ← parseItems unhex "," pre
     let body ← parseItems unhex "," body
@@ -85,9 +103,12 @@ def parseRec (s : String) : Option Construct :=
     let method ← parseOptStr method
     let (hasNcvar, ncvar) ← parseNc ncvar
     let (hasNcdim, ncdim) ← parseNc ncdim
+    let cmaxes ← if cmaxes == "-" then some none else (parseItems unhex "," cmaxes).map some
+    let cell ← parseOptStr cell
+    let conn ← parseOptStr conn
     some { key := key, ctype := ty, idPre := pre, idBody := body, idPost := post,
-           hasProps := hasProps, props := props, axes := axes, size := size,
-           measure := measure, method := method, hasNcvar := hasNcvar, ncvar := ncvar,
+           hasProps := hasProps, props := props, axes := axes, cmAxes := cmaxes, size := size,
+           measure := measure, method := method, cell := cell, connectivity := conn, hasNcvar := hasNcvar, ncvar := ncvar,
            hasNcdim := hasNcdim, ncdim := ncdim }
   | _ => none
 
@@ -100,6 +121,7 @@ def parseQ (s : String) : Option Q := do
   match k with
   | "s" => (unhex body).map Q.str
   | "i" => (parseInt? body).map Q.int
+  | "n" => (parseNum body).map fun r => Q.num r.1 r.2.1 r.2.2
   | "p" => ((body.splitOn "/").mapM parseAlt).map Q.pat
   | _ => none
 
@@ -144,6 +166,8 @@ def parseFilter (s : String) : Option Filter :=
   | "mt" => (parseQs args).map Filter.method
   | "nv" => (parseQs args).map Filter.ncvar
   | "nd" => (parseQs args).map Filter.ncdim
+  | "cl" => (parseQs args).map Filter.cell
+  | "cn" => (parseQs args).map Filter.connectivity
   | _ => none
 
 def parseFilters (s : String) : Option (List Filter) := do
@@ -225,29 +249,47 @@ def runAcc (kv : KV) : String :=
     let ts ← accessorTypes (← kv.get? "acc")
     let ids ← parseQs (← kv.get? "ids")
     let fs ← parseFilters (← kv.get? "flts")
-    let d ← parseDefault (← kv.get? "def")
+    let d ← kv.get? "def"
     some (ctx, ts, ids, fs, d)) with
   | none => "bad-op"
-  | some (ctx, ts, ids, fs, d) => showRet (accessor ctx ts ids fs d)
+  | some (ctx, ts, ids, fs, d) =>
+    if d == "all" then showKeys (accessorAll ctx ts ids fs) else
+    match parseDefault d with
+    | none => "bad-op"
+    | some d => showRet (accessor ctx ts ids fs d)
 
-def runDax (kv : KV) : String :=
+/-- `domain_axes` / `cell_methods` (and their single-construct forms) -/
+def runRoute (sel : Ctx → List Q → List Filter → List Construct) (kv : KV) : String :=
   match (do
     let ctx ← parseCtx kv
     let ids ← parseQs (← kv.get? "ids")
+    let fs ← parseFilters (← kv.get? "flts")
     let d ← kv.get? "def"
-    some (ctx, ids, d)) with
+    some (ctx, ids, fs, d)) with
   | none => "bad-op"
-  | some (ctx, ids, d) =>
-    if d == "all" then showKeys (domainAxes ctx ids) else
+  | some (ctx, ids, fs, d) =>
+    if d == "all" then showKeys (sel ctx ids fs) else
     match parseDefault d with
     | none => "bad-op"
-    | some d => showRet (domainAxis ctx ids d)
+    | some d => showRet (returnConstruct (sel ctx ids fs) d)
+
+def runDak (kv : KV) : String :=
+  match (do
+    let ctx ← parseCtx kv
+    let ids ← parseQs (← kv.get? "ids")
+    let fs ← parseFilters (← kv.get? "flts")
+    let d ← parseDefault (← kv.get? "def")
+    some (ctx, ids, fs, d)) with
+  | none => "bad-op"
+  | some (ctx, ids, fs, d) => showRet (domainAxisKey ctx ids fs d)
 
 def run (sub : String) (kv : KV) : String :=
   match sub with
   | "sel" => runSel kv
   | "acc" => runAcc kv
-  | "dax" => runDax kv
+  | "dax" => runRoute domainAxes kv
+  | "cm" => runRoute cellMethods kv
+  | "dak" => runDak kv
   | _ => "bad-op"
 
 end Cfdm.Driver.C18
